@@ -328,6 +328,9 @@ func (st *State) assumeTypeInv(v Value) {
 		st.assume(inRange(v.T, v.Ty))
 	case VRef, VIface, VFunc, VMap, VChan:
 		st.assume(fmt.Sprintf("(and (<= 0 %s) (< %s %s))", v.T, v.T, st.brk))
+		if v.Ty != nil && len(st.fx.eng.cs.NonNil) > 0 && st.fx.eng.cs.NonNil[fullTypeName(v.Ty)] {
+			st.assume("(not (= " + v.T + " 0))")
+		}
 	case VSlice:
 		st.assumeSliceInv(v)
 	case VStruct, VTuple:
